@@ -257,6 +257,16 @@ func runC15(c c15Case) (out ev.Outcome) {
 			return fail("alter-share", "share %d %+d still verifies", i, d)
 		}
 	}
+	// the negated share (q - share, 2q - share): the image point differs from the expected one only in sign
+	for _, m := range []int64{1, 2} {
+		neg := new(big.Int).Sub(mul(cv.Q, big.NewInt(m)), new(big.Int).Mod(sh.Share, cv.Q))
+		if new(big.Int).Mod(neg, cv.Q).Cmp(new(big.Int).Mod(sh.Share, cv.Q)) == 0 || new(big.Int).Mod(neg, cv.Q).Sign() == 0 {
+			continue
+		}
+		if (&vss.Share{Threshold: c.T, ID: sh.ID, Share: neg}).Verify(cv.EC, c.T, vs) {
+			return fail("alter-share", "the negated share %d*q - share of party %d still verifies", m, i)
+		}
+	}
 	nid := add(sh.ID, 1)
 	if new(big.Int).Mod(nid, cv.Q).Sign() == 0 { // id = 0 mod q is outside the verifier's domain (C06 covers it)
 		nid = add(nid, 1)
